@@ -293,17 +293,56 @@ func orderInsensitive(prog *load.Program, info *types.Info, fd *ast.FuncDecl, rs
 	if len(rs.Body.List) == 1 {
 		if as, ok := rs.Body.List[0].(*ast.AssignStmt); ok && as.Tok == token.ASSIGN && len(as.Lhs) == 1 && len(as.Rhs) == 1 {
 			if ix, ok := as.Lhs[0].(*ast.IndexExpr); ok {
-				mid, isID := ix.X.(*ast.Ident)
 				kid, isKey := ix.Index.(*ast.Ident)
-				if isID && isKey && rs.Key != nil && sameIdent(info, kid, rs.Key) {
-					if _, isMap := info.TypeOf(ix.X).Underlying().(*types.Map); isMap && types.ExprString(rs.X) != mid.Name && elemOK(as.Rhs[0]) {
+				if isKey && rs.Key != nil && sameIdent(info, kid, rs.Key) {
+					if _, isMap := info.TypeOf(ix.X).Underlying().(*types.Map); isMap && types.ExprString(rs.X) != types.ExprString(ix.X) && elemOK(as.Rhs[0]) {
 						return true, "keyed transfer into another map (one entry per key)"
 					}
 				}
 			}
 		}
 	}
+	// a filter in front of the collecting statement — `if <no call> { continue }`, possibly with a comma-ok
+	// map read as its init — selects the same elements in any order
+	pureFilter := func(st ast.Stmt) bool {
+		is, ok := st.(*ast.IfStmt)
+		if !ok || is.Else != nil || len(is.Body.List) != 1 {
+			return false
+		}
+		if br, ok := is.Body.List[0].(*ast.BranchStmt); !ok || br.Tok != token.CONTINUE || br.Label != nil {
+			return false
+		}
+		pure := true
+		check := func(n ast.Node) {
+			ast.Inspect(n, func(x ast.Node) bool {
+				switch x.(type) {
+				case *ast.CallExpr, *ast.FuncLit:
+					pure = false
+				case *ast.UnaryExpr:
+					if x.(*ast.UnaryExpr).Op == token.ARROW {
+						pure = false
+					}
+				}
+				return pure
+			})
+		}
+		if is.Init != nil {
+			as, ok := is.Init.(*ast.AssignStmt)
+			if !ok || as.Tok != token.DEFINE || len(as.Rhs) != 1 {
+				return false
+			}
+			if _, isIx := ast.Unparen(as.Rhs[0]).(*ast.IndexExpr); !isIx {
+				return false
+			}
+			check(as.Rhs[0])
+		}
+		check(is.Cond)
+		return pure
+	}
 	for _, st := range rs.Body.List {
+		if pureFilter(st) {
+			continue
+		}
 		// n++ of the fill counter
 		if inc, isInc := st.(*ast.IncDecStmt); isInc && inc.Tok == token.INC {
 			if id, isID := inc.X.(*ast.Ident); isID && counter != nil && info.ObjectOf(id) == counter {
